@@ -112,6 +112,28 @@ def order_case(case, res):
                     res.violation(f"compare|{name}|{form}|array", f"({n1!r}, {f1!r}) {name} ({grid[j][0]!r}, {grid[j][1]!r}) = "
                                   f"{got.flat[j] if got.size > j else got!r}, exact ordering says {bool(w[j])}", case,
                                   {"n": n1, "f": repr(f1), "other": list(grid[j])})
+        # equality of whole arrays (np.array_equal / np.array_equiv) and the ufuncs' outer form: same exact decisions
+        two = Phase(np.array([n1, n1]), np.array([f1, f1]))
+        for (n2, f2), qv in list(zip(grid, allv))[:: max(1, len(grid) // 40)]:
+            other = Phase(np.array([n2, n2]), np.array([f2, f2]))
+            sub = {"a": [n1, repr(f1)], "b": [n2, repr(f2)]}
+            for fname, fn, want in (("np.array_equal", lambda: np.array_equal(two, other), pv == qv),
+                                    ("np.array_equiv", lambda: np.array_equiv(two, other[:1]), pv == qv),
+                                    ("np.less.outer", lambda: np.less.outer(two, other), pv < qv),
+                                    ("np.equal.outer", lambda: np.equal.outer(two, other), pv == qv),
+                                    ("np.greater_equal.outer", lambda: np.greater_equal.outer(two, other[:1]), pv >= qv)):
+                try:
+                    got = fn()
+                except Exception as e:
+                    res.violation(f"compare|{fname}|raised", f"{type(e).__name__}: {e} [{sub}]", case, sub)
+                    continue
+                res.transitions += 1
+                g = np.asarray(got)
+                shape_ok = g.shape == (() if "array_" in fname else ((2, 2) if fname != "np.greater_equal.outer" else (2, 1)))
+                if not shape_ok or g.dtype != bool or not np.all(g == want):
+                    res.violation(f"compare|{fname}", f"{fname} of arrays holding ({n1!r}, {f1!r}) and ({n2!r}, {f2!r}) = {got!r}, "
+                                  f"exact values say {want}", case, sub)
+        res.hits["array_equal / array_equiv / outer comparisons"] += 1
         # scalar forms against every grid value, Phase and Quantity
         for (n2, f2), qv in zip(grid, allv):
             q = mk(n2, f2)
@@ -588,6 +610,37 @@ def render_case(case, res):
                         res.hits["exact decimal tie (either neighbour accepted)"] += 1
                     if k < 2 and abs(float(ex(p)[0] - math.floor(ex(p)[0]))) < 0.25:
                         res.hits["precision < 2 with small fraction"] += 1
+            # fixed-point format specifications with flags, widths, fills and grouping: the NUMBER shown is still the exact value
+            # rounded to the digits shown (padding itself is not constrained)
+            if pv != 0:
+                for k in (1, 3):
+                    for spec in (f"z.{k}f", f"+.{k}f", f" .{k}f", f"12.{k}f", f"012.{k}f", f">12.{k}f", f"<12.{k}f", f"^12.{k}f",
+                                 f".>12.{k}f", f"*<14.{k}f", f"x^15.{k}f", f",.{k}f", f"+018,.{k}f", f"+z.{k}f", f"0=14.{k}f", f"-.{k}f"):
+                        try:
+                            s_ = format(p, spec)
+                        except Exception as e:
+                            res.violation("format(spec)|raised", f"format(p, {spec!r}): {type(e).__name__}: {e} [{sub}]", case, dict(sub, spec=spec))
+                            continue
+                        res.transitions += 1
+                        fill = spec[0] if len(spec) > 1 and spec[1] in "<>^=" else " "
+                        core = s_.strip(fill if fill not in "0123456789+-" else " ").strip(" ").replace(",", "")
+                        m = DEC.match(core)
+                        ok = bool(m) and len(m.group(3) or "") == k
+                        if ok:
+                            val = F(core)
+                            half = F(1, 2 * 10 ** k)
+                            ok = abs(val - pv) <= half and (val == 0 or (val < 0) == (pv < 0))
+                            if ok and pv < 0 and val == 0 and "z" not in spec and "-" not in core:
+                                ok = True          # (sign of a value that rounds to zero: not constrained)
+                        if not ok:
+                            res.violation("format(spec)|value", f"format(p, {spec!r}) = {s_!r}; the exact value is {float(pv)!r} [{sub}]", case,
+                                          dict(sub, spec=spec))
+                            break
+                    else:
+                        continue
+                    break
+                else:
+                    res.hits["format specifications with flags, fills and grouping"] += 1
     # array rendering
     P = Phase(np.array([n, n]), np.array([0.3, -0.2]))
     try:
@@ -641,7 +694,7 @@ def main(argv=None):
         PID, gen_cases=gen_cases, check_case=check_case, describe=describe,
         required_hits=["near-tie below double resolution", "exact tie", "array with exact ties", "array with sub-ulp near-ties",
                        "2-D reshapes", "zero or missing integer part", "zero or missing fractional part", "D exponent",
-                       "round trip", "precision < 2 with small fraction", "use, update in place, sort again", "transposed view", "unit keyword spellings", "ambient decimal context and print options", "dense fractions rendered"],
+                       "round trip", "precision < 2 with small fraction", "use, update in place, sort again", "transposed view", "unit keyword spellings", "ambient decimal context and print options", "dense fractions rendered", "format specifications with flags, fills and grouping", "array_equal / array_equiv / outer comparisons"],
         assumptions=["for exact ties any index/permutation that realises the exact ordering is accepted",
                      "the imaginary flag of an exactly zero value is unconstrained", "format(p, '.0f') (no decimals) falls to the "
                      "Quantity formatter and is not constrained"],
